@@ -45,6 +45,35 @@ PROPS["C01"] = {
 }
 
 
+DETECT_RULE = ("detection cases = fixed witnesses + corpus files + generated (corpus slices, texts re-encoded into any "
+               "supported encoding, marks, declarations, ASCII with high bytes at random offsets, tiny, binary, corrupted UTF-8, "
+               "mixed scripts) x random settings (steps 1..64, chunk sizes 1..4096, thresholds on and around 0, 0.01 ... 1, "
+               "filters spelled through random labels); each compared field by field with the extracted Coq model served by "
+               "the real primitives; non-trivial = distinct cases with at least one match")
+
+PROPS["C05"] = {
+    "module": "PropC05",
+    "theorems": ["C05_membership", "C05_canon_is_entrywise", "C05_canonical_twin", "C05_unknown_include", "C05_unknown_exclude"],
+    "runs": [NAMES_RUN, detect_run("C05", 300, 5000)],
+    "search": detect_search("C05"),
+    "rule": DETECT_RULE + "; focus C05: every case carries 1-8 filter entries drawn from 66 label spellings (case, padding, aliases) and "
+            "10% an unknown label; each result is re-run with canonicalised filters (twin) and membership-checked",
+    "assumptions": ["entries canonicalising to 'replacement' (five WHATWG labels of an unsupported encoding) are outside the twin statement"],
+    "trusted": [],
+}
+
+PROPS["C07"] = {
+    "module": "PropC07",
+    "theorems": ["C07_flag_truthful", "C07_text_after_mark", "C07_marks_prefix_free"],
+    "runs": [detect_run("C07", 300, 5000)],
+    "search": detect_search("C07"),
+    "rule": DETECT_RULE + "; focus C07: half of the cases get one of the four marks prepended (20% doubled) to an arbitrary body "
+            "(matching text, foreign text, random bytes, nothing)",
+    "assumptions": ["LazyContract only for C07_text_after_mark on inputs above TOO_BIG_SEQUENCE"],
+    "trusted": [],
+}
+
+
 def _tok(line):
     return line.split(" ")
 
